@@ -131,7 +131,7 @@ type Sched struct {
 
 	Tape *Tape
 
-	lockHolder *G // simulated process-wide wallet-db writer lock
+	lockHolder *G             // simulated process-wide wallet-db writer lock
 	beginVia   map[int64]bool // goroutines inside SimDB.BeginTx on their way to the writer-lock hook
 	rootHolds  bool
 
@@ -506,6 +506,13 @@ func (s *Sched) Do(a Action) {
 	s.Steps++
 	s.note(a)
 	g := a.G
+	var refill *Instance
+	if a.Kind == "suspend" && g.Inst != nil {
+		// the handler must take the worker's hand-shake, not a queued
+		// notification: the channels are empty while its select runs
+		g.Inst.drainReal()
+		refill = g.Inst
+	}
 	s.mu.Lock()
 	switch a.Kind {
 	case "deliver", "deliver-tx", "deliver-block":
@@ -524,6 +531,10 @@ func (s *Sched) Do(a Action) {
 			g.Inst.W.Stats["probe.notification_overtook_other_queue"]++
 		}
 		s.mu.Unlock()
+		// only the chosen notification may be ready when the select runs
+		g.Inst.drainReal()
+		refill = g.Inst
+		d.inChan = false
 		if os.Getenv("VERIF_EXP_INJECT_OFF") != "" {
 			raceOff()
 		}
@@ -545,6 +556,9 @@ func (s *Sched) Do(a Action) {
 	g.ch <- struct{}{}
 	synctest.Wait()
 	raceOn()
+	if refill != nil {
+		refill.refillReal()
+	}
 }
 
 // Step picks one enabled action from the tape. It returns false when nothing
